@@ -390,6 +390,13 @@ def accepts : S → List (Op × Obs) → Bool
     | some s' => accepts s' r
     | none => false
 
+/-- The monitor's state after a trace (`none` = rejected). -/
+def exec : S → List (Op × Obs) → Option S
+  | s, [] => some s
+  | s, (op, ob) :: r => match step s op ob with
+    | some s' => exec s' r
+    | none => none
+
 /-- Diagnosis for the driver: which clause rejected the observation (the key of a finding). -/
 def explain (s : S) (op : Op) : Obs → String
   | .panic => "panic"
